@@ -83,6 +83,8 @@ pub struct Sub {
 struct FrameRec {
     nonce: bool,
     frags: Vec<(usize, u32)>, // (sub idx, fragment)
+    t_ms: u32,                // the sender's clock reading when the frame was emitted (its last step())
+    acked: bool,              // an accepted ack group has named it
 }
 
 pub struct DirModel {
@@ -136,7 +138,13 @@ pub struct DirModel {
     pub honest_peer: bool,
     /// virtual time in ms, kept current by the simulator (only used to date transmissions)
     pub clock_ms: u32,
+    /// the time the sender itself stamps on the frames it emits now: that of its last step()
+    /// (flush() works with the clock reading stored by the previous step())
+    pub stamp_ms: u32,
     reported_phantom: bool,
+    reported_untransmitted: bool,
+    /// send time of the newest data frame first acknowledged since the sender's last step
+    pub fb_newest_send_ms: Option<u32>,
     pub violations: Vec<Violation>,
     pub c: Counters,
 }
@@ -186,6 +194,9 @@ impl DirModel {
             n_passed: 0,
             honest_peer: true,
             clock_ms: 0,
+            stamp_ms: 0,
+            reported_untransmitted: false,
+            fb_newest_send_ms: None,
             reported_phantom: false,
             violations: Vec::new(),
             c: Counters::default(),
@@ -208,7 +219,17 @@ impl DirModel {
     /// its packet id (some fragment of it was on the wire), whose acknowledgement has not been handed
     /// to the sender and which the receiver has not reported moving past, must have been on the wire
     /// within that window. Returns a description of the first fragment for which that is not so.
-    pub fn unacked_fragment_not_retransmitted(&self, now_ms: u32, window_ms: u32) -> Option<String> {
+    pub fn unacked_fragment_not_retransmitted(&self, now_ms: u32, window_ms: u32, sender_holds_nothing: bool) -> Option<String> {
+        // a Persistent / Reliable packet that never reached the wire at all although the sender no
+        // longer holds anything (send queue, pending fragments and resend queue empty, send buffer
+        // size 0): it was dropped without a single transmission
+        if sender_holds_nothing {
+            for (idx, s) in self.subs.iter().enumerate() {
+                if s.mode.resends() && s.pid.is_none() && !s.discarded && !s.passed && s.delivered == 0 && s.t_ns / 1_000_000 + (window_ms as u64) < now_ms as u64 {
+                    return Some(format!("{} submission #{} ({} bytes, channel {}, submitted at t={} ms) was never transmitted, not one fragment, and the sender no longer holds it: its queues are empty and send_buffer_size() is 0 (now t={} ms)", s.mode.name(), idx, s.len, s.chan, s.t_ns / 1_000_000, now_ms));
+                }
+            }
+        }
         for (idx, s) in self.subs.iter().enumerate() {
             if !s.mode.resends() || s.pid.is_none() || s.passed || s.discarded || s.n_acked >= s.nfrag || s.tx.is_empty() {
                 continue;
@@ -397,7 +418,7 @@ impl DirModel {
             }
         }
         self.expect_frame_id = Some(frame_id.wrapping_add(1));
-        let mut rec = FrameRec { nonce, frags: Vec::with_capacity(datagrams.len()) };
+        let mut rec = FrameRec { nonce, frags: Vec::with_capacity(datagrams.len()), t_ms: self.stamp_ms, acked: false };
         for dg in datagrams {
             let pid = dg.sequence_id;
             let off = pid_sub(pid, self.base_pid);
@@ -476,6 +497,27 @@ impl DirModel {
             } else {
                 let (b, n) = (self.base_pid, self.next_pid);
                 self.viol("C01", "wire-packet-id-out-of-window", format!("packet id {} on the wire outside the sender's own window [{}, {}) and not the next id", pid, b, n));
+                // C12: ids are handed out in submission order, so a first transmission a few ids
+                // beyond the next one means the packets in between were given an id and then dropped
+                // without ever being transmitted; only a stale TimeSensitive packet may go that way
+                let ahead = pid_sub(pid, n);
+                if ahead >= 1 && ahead <= 8 && self.honest_peer && !self.reported_untransmitted {
+                    // the submissions that the missing ids belong to: the next `ahead` ones in line,
+                    // not counting TimeSensitive packets (which may have been discarded unsent)
+                    let mut cand: Vec<usize> = Vec::new();
+                    let mut i = self.next_map;
+                    while i < self.subs.len() && cand.len() < ahead as usize {
+                        if self.subs[i].mode != Mode::TimeSensitive && self.subs[i].pid.is_none() && !self.subs[i].discarded {
+                            cand.push(i);
+                        }
+                        i += 1;
+                    }
+                    if let Some(idx) = cand.into_iter().find(|&i| self.subs[i].mode.resends()) {
+                        self.reported_untransmitted = true;
+                        let (name, len, chan, t) = (self.subs[idx].mode.name(), self.subs[idx].len, self.subs[idx].chan, self.subs[idx].t_ns / 1_000_000);
+                        self.viol("C12", "resendable-packet-dropped-untransmitted", format!("packet id {} makes its first appearance on the wire although id {} never did: {} submission #{} ({} bytes, channel {}, submitted at t={} ms), the next in line for an id, was never transmitted — the sender dropped a packet it has to retransmit until acknowledged", pid, n, name, idx, len, chan, t));
+                    }
+                }
                 continue;
             };
             // C04: datagram slicing
@@ -579,7 +621,15 @@ impl DirModel {
                 }
                 let id = g.base_id.wrapping_add(i);
                 let frags = match self.frames.get_mut(&id) {
-                    Some(r) => std::mem::take(&mut r.frags),
+                    Some(r) => {
+                        if !r.acked {
+                            // first acknowledgement of this frame: it takes part in the sender's
+                            // next RTT sample (the newest such frame decides, RFC 5348 4.3)
+                            r.acked = true;
+                            self.fb_newest_send_ms = Some(self.fb_newest_send_ms.map_or(r.t_ms, |t| t.max(r.t_ms)));
+                        }
+                        std::mem::take(&mut r.frags)
+                    }
                     None => continue,
                 };
                 for (idx, f) in frags {
@@ -653,6 +703,12 @@ impl DirModel {
             // the send queue is empty: every submission that never reached the wire was discarded
             while self.next_map < self.subs.len() {
                 let idx = self.next_map;
+                if self.subs[idx].mode.resends() && self.honest_peer && !self.reported_untransmitted {
+                    // only a stale TimeSensitive packet may leave the sender without a transmission
+                    self.reported_untransmitted = true;
+                    let (name, len, chan, t) = (self.subs[idx].mode.name(), self.subs[idx].len, self.subs[idx].chan, self.subs[idx].t_ns / 1_000_000);
+                    self.viol("C12", "resendable-packet-dropped-untransmitted", format!("is_send_pending() is false after {} although {} submission #{} ({} bytes, channel {}, submitted at t={} ms) never had a fragment on the wire: the sender dropped a packet it has to retransmit until acknowledged", at, name, idx, len, chan, t));
+                }
                 let s = &mut self.subs[idx];
                 let len = s.len;
                 s.discarded = true;
